@@ -102,6 +102,9 @@ Section Provider.
                                                 function of the state the handler returned *)
   Variable rresp : istate.                   (* direct processing: state of the response when the
                                                 handler raised *)
+  Variable lostwait : bool.                  (* false: a request that finds the queue full is refused (queue.Full
+                                                escapes, SOAP fault, no state); true: it is answered Wait although
+                                                nothing was enqueued *)
 
   Definition pstep (s : pstate) (e : pevent) : pstate * list pout :=
     match e with
@@ -117,7 +120,8 @@ Section Provider.
             OResp id (Some (mkInfo id (match r_out r with Returns st => dresp st | Raises => rresp end)
                                    ENone false))])
         else if (qcap <=? length (p_queue s))%nat then
-          (mkP id (p_queue s) (p_cur s) (p_mv s) (p_execd s) hist, [OResp id None])
+          (mkP id (p_queue s) (p_cur s) (p_mv s) (p_execd s) hist,
+           [OResp id (if lostwait then Some (mkInfo id Wait ENone false) else None)])
         else
           (mkP id (p_queue s ++ [(id, r)]) (p_cur s) (p_mv s) (p_execd s) hist,
            [OResp id (Some (mkInfo id Wait ENone false))])
